@@ -788,6 +788,13 @@ func (e mwEngine) Exec(t *testing.T, cc any) *simrt.Result {
 		} else if !phase(0, len(all)) {
 			return
 		}
+		// progress: with every reader active nothing keeps a session from taking
+		// its client's messages (a middleware that stops reading starves it)
+		for ci, k := range all {
+			if !k.ScriptDone.Load() && !down.sess[ci].crashed && k.CancelStamp == 0 && k.CloseStamp == 0 {
+				sim.Violate(c.Prop, "session-stalled", nil, "%s: at quiescence (no reader stalled) the client has handed over %d of its %d script steps' messages and waits", k.Name, len(k.Sent), len(k.Script))
+			}
+		}
 		gauge()
 		mwJudge(sim, c, cls, down, stack)
 		// end every session, then the gauges must be back
